@@ -144,4 +144,12 @@ PROPS = {
         "floors": ["c14:cross-process", "c14:isolation", "c14:random"] + ["c14:config:" + c for c in ["baseline", "repeat", "reused-packageset", "reused-reverse-package-order", "reused-shuffled-package-order", "reversed-file-listing", "shuffled-file-listing", "compiled-twice-on-one-set", "after-unrelated-bundle"]],
         "assumptions": COMMON_ASSUMPTIONS,
     },
+    "C13": {
+        "shards": 16,
+        "level_text": "Histories P0 -> e1 -> P1 ... (1-6 append edits: field appended to an object / oneof / request / response / topic message / entity data / event, enum option or entity status appended, method appended to a service, event appended to an entity, top-level declaration appended to a file, file appended to a package) are generated over random bundles and entity bundles; every version is compiled by the real compiler and recorded as an identity table (message, field name/number/type/label/JSON name/proto3-optional, enum value name/number, service, method input/output/HTTP rule); an offline checker over the recorded history requires identity(P_i) to be contained unchanged in identity(P_j) for all i < j, and every intermediate version to compile.",
+        "level_note": "Edits are drawn from the statement's list only; comparison is on descriptors as the compiler returns them.",
+        "rule": "one evaluation per history; non-trivial = the first version has at least one element; distinct by hash of (first version sources, edit sequence).",
+        "floors": ["c13:edit:" + e for e in ["object-field", "oneof-option", "enum-option", "request-field", "response-field", "topic-field", "entity-data", "entity-status", "event-field", "top-level-declaration", "new-file"]],
+        "assumptions": COMMON_ASSUMPTIONS,
+    },
 }
